@@ -218,6 +218,10 @@ def judge_nexts(ctx, r):
     ctx.case(key, nontrivial=not dead)
     ctx.count("oracle_nexts")
     case = {"kind": "nexts", "rule": r["rule"], "n": r["n"], "k": r["k"], "ops": ",".join(r["ops"])}
+    if any(o.startswith("E:") for o in r["out"]):
+        ctx.violation("next() raises %s under schedule %s over a cached rule of length %d" % (r["out"][-1][2:], ",".join(r["ops"]), r["n"]),
+                      case, {"outputs": r["out"]})
+        return
     if dead:
         ctx.violation("an iterator blocks forever: next() #%d of schedule %s over a cached rule of length %d re-acquires the held lock"
                       % (len(r["out"]), ",".join(r["ops"]), r["n"]), case, {"outputs": r["out"]})
@@ -297,7 +301,10 @@ def free_running_smoke(ctx):
         outs = [None] * 4
 
         def work(i):
-            outs[i] = ints(list(r))
+            try:
+                outs[i] = ints(list(r))
+            except Exception as ex:
+                outs[i] = "err " + type(ex).__name__
         ths = [threading.Thread(target=work, args=(i,), daemon=True) for i in range(4)]
         for t in ths:
             t.start()
@@ -319,7 +326,7 @@ def replay(ctx, payload):
         ops = c["ops"].split(",")
         L, out, got, stopped, held, rule = run_nexts_case(c["rule"], c["n"], c["k"], ops)
         print("replay nexts n=%d ops=%s -> %s" % (c["n"], c["ops"], ",".join(out)))
-        ok = "D" not in out and not held and all(ints(g) == L[:len(g)] and (not s or ints(g) == L) for g, s in zip(got, stopped))
+        ok = "D" not in out and not any(o.startswith("E:") for o in out) and all(ints(g) == L[:len(g)] and (not s or ints(g) == L) for g, s in zip(got, stopped))
         return ok
     if c.get("kind") == "threads":
         qs = [tuple(q) for q in c["qs"]]
